@@ -141,6 +141,17 @@ func (x *Exec) eval1(env *Env, e *Expr) (Val, error) {
 		saved, had := env.vars[e.Name]
 		env.vars[e.Name] = bv
 		body, err := x.evalBool(env, e.Args[0])
+		var pats []*Term
+		if err == nil {
+			for _, te := range e.Args[1:] {
+				var pt *Term
+				pt, err = x.evalTerm(env, te)
+				if err != nil {
+					break
+				}
+				pats = append(pats, pt)
+			}
+		}
 		if had {
 			env.vars[e.Name] = saved
 		} else {
@@ -149,7 +160,7 @@ func (x *Exec) eval1(env *Env, e *Expr) (Val, error) {
 		if err != nil {
 			return nil, err
 		}
-		return Forall(bv, body), nil
+		return Forall(bv, body, pats...), nil
 	case "unop":
 		a, err := x.evalTerm(env, e.Args[0])
 		if err != nil {
